@@ -9,9 +9,9 @@ from mc.ref import stats as rs
 
 RULE = ("histories: every sequence of <=D public mutations/queries on one Measurements object vs a plain-list model; shots: every multiset of bitstrings of width w with N shots (each in sorted and reversed list order); operators: every ordered "
         "list of <=T Z-subsets of the register (constant, repeated and overlapping supports included) with position-dependent coefficients, "
-        "single terms with each coefficient; Bessel on/off. non-trivial = at least two distinct bitstrings among the shots and an operator with a "
+        "single terms with each coefficient (also as bare PauliTerm), all-integer coefficients, small (1e-5) and large (1e6) coefficients; Bessel on/off. non-trivial = at least two distinct bitstrings among the shots and an operator with a "
         "non-constant term; distinct = (shots list, operator block)")
-ASSUMPTIONS = ["exact rational arithmetic (fractions.Fraction) as reference", "floating point results compared at 1e-12 absolute (values are O(1))"]
+ASSUMPTIONS = ["exact rational arithmetic (fractions.Fraction) as reference", "floating point results compared at 1e-12 relative to the natural scale of each entry (|c_i|, |c_i c_j|, |c_i c_j|/denominator)"]
 BOUNDS = {"quick": {"w<=2": "N<=4, <=3 terms", "w=3": "N<=3, <=2 terms"}, "thorough": {"w<=2": "N<=5, <=3 terms", "w=3": "N<=5, <=3 terms"}}
 TOL = 1e-12
 COEFS = [F(2), F(-1, 2), F(3, 2)]
@@ -22,6 +22,7 @@ def subsets(w):
 
 
 ICOEFS = [F(2), F(-5), F(3)]
+SCOEFS = [F(1, 100000), F(-3, 100000), F(1000000)]   # small and large coefficients: statistics scale with them, nothing may be snapped to zero
 
 
 def operators(w, T):
@@ -32,6 +33,11 @@ def operators(w, T):
     for k in range(1, min(T, 3) + 1):
         for combo in itertools.product(S, repeat=k):
             out.append([[[int(ICOEFS[i]), 0], s] for i, s in enumerate(combo)])
+    for k in range(1, min(T, 2) + 1):
+        for combo in itertools.product(S, repeat=k):
+            out.append([[[SCOEFS[i].numerator, SCOEFS[i].denominator], s] for i, s in enumerate(combo)])
+            if k == 2:
+                out.append([[[SCOEFS[i + 1].numerator, SCOEFS[i + 1].denominator], s] for i, s in enumerate(combo)])
     for s in S:
         for c in COEFS:
             out.append([[[c.numerator, c.denominator], s]])
@@ -49,8 +55,9 @@ def mk_operator(desc, as_sum=True):
     return PauliSum(terms)
 
 
-def close(a, b):
-    return abs(complex(a) - complex(b)) <= TOL
+def close(a, b, scale=1.0):
+    """relative to the natural scale of the quantity (product of the coefficients involved / denominator)"""
+    return abs(complex(a) - complex(b)) <= TOL * max(abs(float(scale)), 1e-300)
 
 
 def stats_case(case):
@@ -75,18 +82,18 @@ def stats_case(case):
                 n_eval += 1
                 den = N - 1 if bessel else N
                 vals = np.asarray(ev.values)
-                if vals.shape != (len(desc),) or not all(close(vals[i], float(means[i])) for i in range(len(desc))):
+                if vals.shape != (len(desc),) or not all(close(vals[i], float(means[i]), cs[i]) for i in range(len(desc))):
                     return {"ok": False, "msg": "expectation values are not coefficient x sample mean", "expected": [str(x) for x in means], "observed": str(vals.tolist()),
                             "sig": "stats:values", "ops": n_eval, "case_detail": str(desc)}
                 C = np.asarray(ev.correlations[0])
                 K = np.asarray(ev.estimator_covariances[0])
                 for i in range(len(desc)):
                     for j in range(len(desc)):
-                        if not close(C[i, j], float(corr[i][j])):
+                        if not close(C[i, j], float(corr[i][j]), cs[i] * cs[j]):
                             return {"ok": False, "msg": "correlation [%d,%d] is not the sample mean of the product (op %s)" % (i, j, desc), "expected": str(corr[i][j]),
                                     "observed": str(C[i, j]), "sig": "stats:correlations", "ops": n_eval}
                         cov = (corr[i][j] - means[i] * means[j]) / den
-                        if not close(K[i, j], float(cov)):
+                        if not close(K[i, j], float(cov), cs[i] * cs[j] / den):
                             return {"ok": False, "msg": "covariance [%d,%d] is not (corr - mean*mean)/%s (bessel=%s, op %s)" % (i, j, den, bessel, desc), "expected": str(cov),
                                     "observed": str(K[i, j]), "sig": "stats:covariance", "ops": n_eval}
             if distinct and any(qs for _, qs in desc):
@@ -153,6 +160,17 @@ def counts_case(case):
                 if [int(C[i, j, 0]), int(C[i, j, 1])] != [ev, N - ev]:
                     return {"ok": False, "msg": "pair parity tallies [%d,%d] for terms on %s, %s" % (i, j, a, b), "expected": [ev, N - ev], "observed": C[i, j].tolist(),
                             "sig": "parities:correlations"}
+    # a bare PauliTerm (constant, single- and multi-qubit) is an Ising operator with one term
+    for a in S:
+        for c in (1.0, -0.5):
+            op = PauliTerm({q: "Z" for q in a}, c)
+            p = get_parities_from_measurements(list(shots), op)
+            k += 1
+            ev = sum(1 for s in shots if sum(s[q] for q in a) % 2 == 0)
+            vals = np.asarray(p.values)
+            C = np.asarray(p.correlations[0])
+            if vals.tolist() != [[ev, N - ev]] or C.shape != (1, 1, 2) or [int(C[0, 0, 0]), int(C[0, 0, 1])] != [N, 0]:
+                return {"ok": False, "msg": "parity tallies for the bare term %s" % op, "expected": [[[ev, N - ev]], [[[N, 0]]]], "observed": [vals.tolist(), C.tolist()], "sig": "parities:bare-term"}
     if [tuple(b) for b in m.bitstrings] != shots:
         return {"ok": False, "msg": "a query modified the measurements", "sig": "counts:mutated"}
     return {"ok": True, "nt": len(set(shots)) >= 2, "ops": k, "out": "N%d" % N}
